@@ -500,6 +500,8 @@ class DefUse:
             return ('un', rv['op'], self.sym(rv['a'], depth + 1))
         if k in ('ref', 'rawptr'):
             return self.sym_place(rv['p'], depth + 1)
+        if k == 'discr':
+            return ('discr', self.sym_place(rv['p'], depth + 1))
         return ('?',)
 
     def root_of(self, l, depth=0, through_calls=True, through_wraps=False):
